@@ -3,6 +3,6 @@ package main
 func init() {
 	for _, id := range []string{"C02", "C10", "C11", "C14", "C15", "C16", "C17"} {
 		id := id
-		register(&propDef{id: id, explain: "serve-loop obligations (work in progress)", run: func(p *Prog, r *Report) { p.serveLoop().report(r, id) }})
+		register(&propDef{id: id, explain: "serve-loop obligations (work in progress)", run: func(p *Prog, r *Report) { p.serveLoop(id).report(r, id) }})
 	}
 }
